@@ -27,6 +27,8 @@ CORPUS = [
     b'require "vacation";\nvacation :days 1 :addresses ["a"] "r";',
     b'if allof (not true, header :matches "a" "*") { keep; } elsif false { stop; }',
     b'unknown; control; action; test; command;',
+    b'/* caf\xe9 \xff */ keep; /* \xc3 */ stop;',
+    b'# caf\xe9\nif true { keep; } # \xff\xfe',
 ]
 EDIT_BYTES = [0x00, 0x22, 0x5C, 0x0A, 0x0D, 0x7B, 0x7D, 0x28, 0x5B, 0x2F, 0x2A, 0x23, 0x3A, 0x2E, 0x80, 0xC3, 0xFF,
               0x20, 0x61, 0x30, 0x3B, 0x2C, 0x29, 0x5D]
@@ -203,6 +205,7 @@ def run(tier, seed):
     tasks = PC.make_tasks(tier, seed, ORACLES, layouts=["comments"], layout_depth=1, include_noreq=True)
     results = pool.run_tasks("checks.parser_common:task", tasks)
     results += pool.run_tasks("checks.parser_common:valid_task", PC.valid_tasks(tier, seed, ORACLES, post="reuse"))
+    results += pool.run_tasks("checks.parser_common:comment_task", PC.comment_tasks(tier, ORACLES))
     cov, viols, harness = PC.assemble(results)
     viols = [v for v in viols if v["property"] == "C02"]
     # (b) byte-edit neighbourhoods
